@@ -527,13 +527,18 @@ func InitTemplate(r *RNG, kind int) []byte {
 		a.PushU(24576).PushU(0).Op(RETURN)
 	case 10: // oversize AND starting with 0xEF: two rules apply, the reference decides which one is reported
 		a.Push(new(uint256.Int).Lsh(uint256.NewInt(0xEF), 248)).PushU(0).Op(MSTORE).PushU(uint64(24577 + r.Intn(3))).PushU(0).Op(RETURN)
+	case 12: // init code that itself calls something returning data (identity precompile), then deploys one byte
+		a.Push(r.U256()).PushU(0).Op(MSTORE).PushU(32).PushU(0x40).PushU(32).PushU(0).PushU(0).PushAddr(common.BytesToAddress([]byte{4})).PushU(3000).Op(CALL, POP)
+		a.PushU(1).PushU(0).Op(RETURN)
+	case 13: // ... and then fails
+		a.Push(r.U256()).PushU(0).Op(MSTORE).PushU(32).PushU(0x40).PushU(32).PushU(0).PushU(0).PushAddr(common.BytesToAddress([]byte{4})).PushU(3000).Op(CALL, POP, INVALID)
 	case 11: // exactly max size starting with 0xEF
 		a.Push(new(uint256.Int).Lsh(uint256.NewInt(0xEF), 248)).PushU(0).Op(MSTORE).PushU(24576).PushU(0).Op(RETURN)
 	}
 	return a.Bytes()
 }
 
-const NumInitTemplates = 12
+const NumInitTemplates = 14
 
 // JumpyInit returns init code whose only JUMPDEST sits behind a data region of n bytes (some of them 0x5b):
 // the position of the valid destination differs with n.
